@@ -145,7 +145,18 @@ func (C05Monitor) OnResponse(w *world.World, r *world.Req) {
 		return // caller is told not to wait
 	}
 	d := w.Dump()
-	if _, ok := d.Callbacks[derived]; ok {
+	if cb, ok := d.Callbacks[derived]; ok {
+		// the registration found under the derived id must be THIS registration: ids are
+		// joined with ':' and client ids may contain ':' themselves
+		wantP, wantRoot := "", ""
+		if r.Req.CreateCallback != nil {
+			wantP, wantRoot = r.Req.CreateCallback.PromiseId, r.Req.CreateCallback.RootPromiseId
+		} else {
+			wantP, wantRoot = r.Req.CreateSubscription.PromiseId, r.Req.CreateSubscription.PromiseId
+		}
+		if cb.PromiseId != wantP || cb.RootPromiseId != wantRoot {
+			w.Violate("C05:registration-aliased:"+kind, "%s for promise %q (root %q) was acknowledged with the promise PENDING, but the registration stored under the derived id %q belongs to promise %q (root %q): the two id pairs collide and this caller is never woken", kind, wantP, wantRoot, derived, cb.PromiseId, cb.RootPromiseId)
+		}
 		return
 	}
 	if _, ok := d.Tasks[derived]; ok {
@@ -222,6 +233,22 @@ func C05Scenarios(tier string) []*Scenario {
 				})
 			}
 		}
+	}
+	// client ids that contain the separator of the derived registration ids
+	aliasSetup := func(w *world.World) {
+		for i, id := range []string{"a:b", "c", "a", "b:c"} {
+			w.Do(9, i, CreateP(id, "", false, 1000, nil, "x").F())
+		}
+	}
+	for _, pair := range [][2]ReqF{
+		{Callback("a:b", "c", 100, recvPoll), Callback("a", "b:c", 100, recvPoll)},
+		{Subscribe("c", "a:b", 100, recvPoll), Subscribe("b:c", "a", 100, recvPoll)},
+	} {
+		out = append(out, &Scenario{
+			Name: fmt.Sprintf("C05/ids-with-separator/%s|%s", pair[0].Label, pair[1].Label), Cfg: world.DefaultConfig(), Clock0: 9, Setup: aliasSetup,
+			Clients: [][]ReqF{{pair[0]}, {pair[1]}}, ClockMenu: []int64{10},
+			Epilogue: promiseEpilogue("c", "b:c", "a", "a:b"), Monitors: mon, Bound: -1,
+		})
 	}
 	if tier == "thorough" {
 		for _, su := range setups {
